@@ -331,7 +331,9 @@ FutureContext<T, M>::pointer() noexcept {
 
 template <typename T, typename M>
 ABSL_ATTRIBUTE_NOINLINE void FutureContext<T, M>::wait_slow() noexcept {
-  auto value = _futex.value().fetch_add(1, ::std::memory_order_acquire) + 1;
+  // Low bit = "somebody waits". A flag, not a counter: a counter of waiters that is
+  // never decremented (wait_for timeouts) reaches READY_MASK after 2^31 waits.
+  auto value = _futex.value().fetch_or(1, ::std::memory_order_acquire) | 1;
   while (!(value & READY_MASK)) {
     _futex.wait(value, nullptr);
     value = _futex.value().load(::std::memory_order_acquire);
@@ -348,7 +350,7 @@ ABSL_ATTRIBUTE_NOINLINE bool FutureContext<T, M>::wait_for_slow(
   int64_t until_ns = static_cast<int64_t>(spec.tv_sec) * (1000 * 1000 * 1000);
   until_ns += spec.tv_nsec + timeout_ns;
 
-  auto value = _futex.value().fetch_add(1, ::std::memory_order_acquire) + 1;
+  auto value = _futex.value().fetch_or(1, ::std::memory_order_acquire) | 1;
   while (!(value & READY_MASK)) {
     spec.tv_sec = timeout_ns / (1000 * 1000 * 1000);
     spec.tv_nsec = timeout_ns % (1000 * 1000 * 1000);
